@@ -1063,8 +1063,21 @@ def remove_duplicate_functions(source: str, preserve: Collection[str]) -> str:
     root = core.parse(source)
     function_defs = collections.defaultdict(set)
 
+    # Two functions that use different things from outside of them are not the same function,
+    # for example len and sum, or os and sys.
+    outside_names = (
+        set(preserve)
+        | constants.BUILTIN_FUNCTIONS
+        | tracing.get_imported_names(root)
+        | {node.id for node in parsing.iter_assignments(root)}
+        | {
+            node.name
+            for node in core.filter_nodes(
+                root.body, (ast.FunctionDef, ast.AsyncFunctionDef, ast.ClassDef)
+        )}
+    )
     for node in core.filter_nodes(root.body, ast.FunctionDef):
-        function_defs[abstractions.hash_node(node, preserve)].add(node)
+        function_defs[abstractions.hash_node(node, outside_names - {node.name})].add(node)
 
     delete = set()
     renamings = {}
